@@ -128,6 +128,9 @@ func c06Bodies(c *Ctx, r *gen.R) error {
 	n := c.N(10, 80)
 	per := c.N(10, 50)
 	bt, items, err := buildBatch(n, func(i int) *ir.Request {
+		if i == 0 {
+			return gen.GenShapeZoo(i) // fixed shapes the random generators rarely draw
+		}
 		f := gen.GenAnnotFile(r.Fork(fmt.Sprint("C06-", i)), i, gen.AnnotOpts{Safe: true})
 		return &ir.Request{Files: []*ir.File{f}, Generate: []string{f.Name}}
 	}, scratch.AddOpts{GoHTTP: true}, false)
@@ -147,6 +150,7 @@ func c06Bodies(c *Ctx, r *gen.R) error {
 	}
 	var all []*kase
 	docs := map[*rtItem]map[string]*c06Doc{}
+	schemaBroken := map[string]bool{} // item id + "|" + message name: the emitted schema is not the modelled one
 	for xi, x := range items {
 		if !x.it.Built {
 			res.Count("unbuildable")
@@ -187,8 +191,25 @@ func c06Bodies(c *Ctx, r *gen.R) error {
 				}
 				if d := firstDiff(normJSON(stripAnnotations(realS)), normJSON(sm["schema"]), ""); d != "" {
 					res.Corr("component_schema", fmt.Sprintf("%s: the emitted component schema differs from the Lean schema model at %s", full, d), map[string]any{"schema": x.req, "type": full, "real": realS, "model": sm["schema"]})
+					schemaBroken[x.it.ID+"|"+shortOf(full)] = true
 				} else {
 					res.CorrAgree()
+				}
+				// per-variant component schemas of flattened discriminated oneofs
+				if vs, _ := sm["variants"].(map[string]any); len(vs) > 0 {
+					for vn, vm := range vs {
+						rv, ok := svcDoc.comps[vn]
+						if !ok {
+							res.Corr("variant_schema", fmt.Sprintf("%s: the document has no variant schema %s", full, vn), map[string]any{"schema": x.req, "type": full})
+							continue
+						}
+						if d := firstDiff(normJSON(stripAnnotations(rv)), normJSON(vm), ""); d != "" {
+							res.Corr("variant_schema", fmt.Sprintf("%s: variant schema %s differs from the Lean schema model at %s", full, vn, d), map[string]any{"schema": x.req, "type": full, "real": rv, "model": vm})
+							schemaBroken[x.it.ID+"|"+shortOf(full)] = true
+						} else {
+							res.CorrAgree()
+						}
+					}
 				}
 			}
 			// built-in error schemas
@@ -348,7 +369,14 @@ func c06Bodies(c *Ctx, r *gen.R) error {
 		if k.special != "" && !valid {
 			what += " [" + k.special + " value: the component schema is not satisfied by it]"
 		}
-		res.Divergence(key, what, wireCorr, replay)
+		// a listed class is accepted only when both the wire model and the schema model reproduce the real artefacts
+		anySchemaBroken := false
+		for k2 := range schemaBroken {
+			if strings.HasPrefix(k2, k.x.it.ID+"|") {
+				anySchemaBroken = true
+			}
+		}
+		res.Divergence(key, what, wireCorr && !anySchemaBroken, replay)
 	}
 	res.Programs += len(items)
 	return nil
